@@ -1,5 +1,263 @@
 import Driver.Util
+import KavaVerif.Model.Pricefeed
+/-!
+  C18 driver. One self-contained case per line (observed pre-state, operation, `=>`, observed result).
+  Every handler (1) runs the Lean model on the observed input and compares (MISMATCH) and (2) evaluates
+  the property's predicates on the implementation's own observation, independently of the model
+  (PREDFAIL): the expected price is recomputed from the harness's own log of accepted posts with the
+  sort-free rank specification `specMedian`, not from the keeper's store and not with the model's sort.
+
+  encodings:  posts   `m:o:price:expiry;…` | `-`            (store order for raw stores, time order for logs)
+              markets `id:active:o1|o2|…;…`                 (params order)
+              cur     `m=mantissa|x;…`                      (x = no key / error)
+-/
 namespace Drv.C18
-/-- handlers of property C18: (command name, handler) -/
-def handlers : List (String × Handler) := []
+open KV KV.PF
+
+def post? (s : String) : Option Post :=
+  match s.splitOn ":" with
+  | [m, o, p, e] =>
+    match nat? m, nat? o, int? p, int? e with
+    | some m, some o, some p, some e => some ⟨m, o, p, e⟩
+    | _, _, _, _ => none
+  | _ => none
+
+def posts? (s : String) : Option (List Post) := (strs s ";").mapM post?
+
+def showPost (p : Post) : String := s!"{p.market}:{p.oracle}:{p.price}:{p.expiry}"
+def showPosts (l : List Post) : String := if l.isEmpty then "-" else ";".intercalate (l.map showPost)
+
+def market? (s : String) : Option MarketP :=
+  match s.splitOn ":" with
+  | [i, a, os] =>
+    match nat? i, bool? a, (strs os "|").mapM nat? with
+    | some i, some a, some os => some ⟨i, os, a⟩
+    | _, _, _ => none
+  | _ => none
+
+def markets? (s : String) : Option (List MarketP) := (strs s ";").mapM market?
+
+/-- `m=v` with v an integer or `x` -/
+def kv? (s : String) : Option (Nat × Option Int) :=
+  match s.splitOn "=" with
+  | [m, v] =>
+    match nat? m with
+    | some m => if v.trimAscii.toString == "x" then some (m, none) else (int? v).map (fun i => (m, some i))
+    | none => none
+  | _ => none
+
+def kvs? (s : String) : Option (List (Nat × Option Int)) := (strs s ";").mapM kv?
+
+def curOf (l : List (Nat × Option Int)) : Nat → Option Int := fun m => (l.lookup m).getD none
+
+def showOpt : Option Int → String
+  | none => "x"
+  | some v => toString v
+
+/-! ### independent expectation from the log of accepted posts -/
+
+/-- latest accepted post of every (market, oracle), scanning the log from its end -/
+def latestOf (log : List Post) : List Post :=
+  log.reverse.foldl (fun acc p => if acc.any (fun q => q.market == p.market && q.oracle == p.oracle) then acc else acc ++ [p]) []
+
+/-- what the prose says the price of an active market is after the block -/
+def expected (log : List Post) (now : Int) (m : Nat) : Option Int :=
+  let ne := ((latestOf (log.filter (fun p => p.market == m))).filter (fun p => decide (now < p.expiry))).map (·.price)
+  if ne.isEmpty then none
+  else let v := specMedian ne
+       if v == 0 then none else some v
+
+/-! ### c18.median : list shuffled => class out1 out2 -/
+def hMedian : Handler
+  | [l, l2, _, cls, o1, o2] =>
+    match ints? l, ints? l2 with
+    | some l, some l2 =>
+      match calculateMedianPrice l with
+      | .panic => expectEq "class" "panic" cls
+      | .err => badInput "model-err"
+      | .ok v =>
+        if cls != "ok" then mismatch "class" "ok" cls
+        -- the property on the observation first (it does not depend on the model)
+        else if o1 != o2 then predfail "C18_median_perm" "order-dependent"
+        else if toString (specMedian l) != o1 then predfail "C18_median_is_middle" "not-middle-rank"
+        else if toString v != o1 then mismatch "median" (toString v) o1
+        else if toString (median l2) != o2 then mismatch "median-shuffled" (toString (median l2)) o2
+        else "ok"
+    | _, _ => badInput "parse"
+  | _ => badInput "arity"
+
+/-! ### c18.post : now markets rawPre m o price expiry via => class rawPost -/
+def hPost : Handler
+  | [now, ms, raw, m, o, price, expiry, via, _, cls, raw'] =>
+    match int? now, markets? ms, posts? raw, nat? m, nat? o, int? price, int? expiry, posts? raw' with
+    | some now, some ms, some raw, some m, some o, some price, some expiry, some raw' =>
+      let p : Post := ⟨m, o, price, expiry⟩
+      let s : St := ⟨raw, fun _ => none⟩
+      let res := if via == "msg" then postPrice now ms s p else setPrice now s p
+      let mcls := match res with | .ok _ => "ok" | .err => "err" | .panic => "panic"
+      -- the property on the observation first (it does not depend on the model)
+      let same := raw'.filter (fun q => q.market == m && q.oracle == o)
+      let other (l : List Post) := l.filter (fun q => !(q.market == m && q.oracle == o))
+      let pred :=
+        if cls == "ok" && expiry ≤ now then predfail "C18_post_expired_refused" "accepted-expired"
+        else if cls == "ok" && same != [p] then predfail "C18_one_price_per_oracle" "slot-not-replaced"
+        else if cls == "ok" && other raw' != other raw then predfail "C18_one_price_per_oracle" "other-slot-changed"
+        else if cls != "ok" && raw' != raw then predfail "C18_post_expired_refused" "refused-but-written"
+        else "ok"
+      if pred != "ok" then pred
+      else if mcls != cls then mismatch "class" mcls cls
+      else match res with
+        | .ok s' => expectEq "raw" (showPosts s'.raw) (showPosts raw')
+        | _ => "ok"
+    | _, _, _, _, _, _, _, _ => badInput "parse"
+  | _ => badInput "arity"
+
+/-! ### c18.endblock : now markets raw curPre log => curPost getPost perMarket
+    perMarket: `m=errflag:stored|x;…` = the real per-market `SetCurrentPrices` run on a scratch branch -/
+def pm? (s : String) : Option (Nat × Bool × Option Int) :=
+  match s.splitOn "=" with
+  | [m, r] =>
+    match r.splitOn ":" with
+    | [e, v] =>
+      match nat? m, bool? e with
+      | some m, some e =>
+        if v.trimAscii.toString == "x" then some (m, e, none) else (int? v).map (fun i => (m, e, some i))
+      | _, _ => none
+    | _ => none
+  | _ => none
+
+def firstBad : List String → String := allOk
+
+def hEndBlock : Handler
+  | [now, ms, raw, curPre, log, _, curPost, getPost, perMarket] =>
+    match int? now, markets? ms, posts? raw, kvs? curPre, posts? log, kvs? curPost, kvs? getPost,
+          (strs perMarket ";").mapM pm? with
+    | some now, some ms, some raw, some curPre, some log, some curPost, some getPost, some pms =>
+      let s : St := ⟨raw, curOf curPre⟩
+      let s' := setAll now ms s
+      -- (1) model vs implementation: stored values, GetCurrentPrice, and the per-market routine
+      let c1 := firstBad (curPost.map fun (m, v) => expectEq s!"cur[{m}]" (showOpt (s'.cur m)) (showOpt v))
+      let c2 := firstBad (getPost.map fun (m, v) => expectEq s!"get[{m}]" (showOpt (getCurrentPrice s' m)) (showOpt v))
+      let c3 := firstBad (pms.map fun (m, e, v) =>
+        let r := setCurrentPrices now ms s m
+        allOk [expectEq s!"per-market-err[{m}]" (showBool r.2) (showBool e),
+               expectEq s!"per-market-cur[{m}]" (showOpt (r.1.cur m)) (showOpt v)])
+      let cmp := allOk [c1, c2, c3]
+      -- (2) the property on the observation: price = median of unexpired latest posts (from the log)
+      let act := (ms.filter (·.active)).map (·.id)
+      let p1 := firstBad (act.map fun m =>
+        let want := expected log now m
+        let got := (getPost.lookup m).getD none
+        if want == got then "ok"
+        else match want, got with
+          | none, some _ => predfail "C18_endblock_price" s!"stale-or-zero-price-served market={m} got={showOpt got}"
+          | some _, none => predfail "C18_endblock_price" s!"live-price-missing market={m} want={showOpt want}"
+          | _, _ => predfail "C18_endblock_price" s!"not-median market={m} want={showOpt want} got={showOpt got}")
+      let p2 := firstBad (act.map fun m =>
+        match pms.lookup m with
+        | some (_, v) => if v == (curPost.lookup m).getD none then "ok"
+                         else predfail "C18_two_impls_agree" s!"impls-differ market={m}"
+        | none => "ok")
+      -- a property failure outranks a model mismatch
+      allOk [p1, p2, cmp]
+    | _, _, _, _, _, _, _, _ => badInput "parse"
+  | _ => badInput "arity"
+
+/-! ### c18.flags : cps avail flagsPre => flagsPost     (cps `spot:liq;…`, others `m=0|1;…`) -/
+def cp? (s : String) : Option CP :=
+  match s.splitOn ":" with
+  | [a, b] => match nat? a, nat? b with
+    | some a, some b => some ⟨a, b⟩
+    | _, _ => none
+  | _ => none
+
+def boolOf (l : List (Nat × Option Int)) : Nat → Bool := fun m => ((l.lookup m).getD none) == some 1
+
+def hFlags : Handler
+  | [cps, avail, pre, _, post] =>
+    match (strs cps ";").mapM cp?, kvs? avail, kvs? pre, kvs? post with
+    | some cps, some avail, some pre, some post =>
+      let price : Nat → Option Int := fun m => if boolOf avail m then some 1 else none
+      let f := beginFlags price cps (boolOf pre)
+      let cmp := firstBad (post.map fun (m, v) => expectEq s!"flag[{m}]" (showBool (f m)) (showOpt v))
+      if cmp != "ok" then cmp
+      else firstBad (cps.map fun cp =>
+        if boolOf post cp.spot != boolOf avail cp.spot then predfail "C18_consumers_refuse" s!"flag-untrue spot={cp.spot}"
+        else if boolOf avail cp.spot && boolOf post cp.liq != boolOf avail cp.liq then
+          predfail "C18_consumers_refuse" s!"flag-untrue liq={cp.liq}"
+        else "ok")
+    | _, _, _, _ => badInput "parse"
+  | _ => badInput "arity"
+
+/-! ### c18.gate.cdp : action spotAvail liqAvail flagSpot flagLiq collZero control => class errkind
+    errkind ∈ price | other | - ; control = class of the same message while every price was up
+    (for `blockliq`: `skip` when the block height is off the liquidation interval, else `run`;
+     class `ok` = the CDP was seized by the begin blocker) -/
+def hGateCdp : Handler
+  | [action, sa, la, fs, fl, cz, control, _, cls, kind] =>
+    match bool? sa, bool? la, bool? fs, bool? fl, bool? cz with
+    | some sa, some la, some fs, some fl, some cz =>
+      -- the property on the observation alone: the price this action values with must be there
+      let needed := match action with
+        | "draw" => sa
+        | "liquidate" => la
+        | _ => sa && la
+      if !needed && cls == "ok" then
+        predfail "C18_consumers_refuse" s!"cdp-{action}-proceeded-without-price"
+      else
+      -- the gate model on the observed flags and availability, every other check permissive
+      let cp : CP := ⟨0, 1⟩
+      let price : Nat → Option Int := fun m =>
+        if m == 0 then (if sa then some 1 else none) else (if la then some 1 else none)
+      let flags : Nat → Bool := fun m => if m == 0 then fs else fl
+      let i : CdpIn := { collZero := cz, cmp0 := action == "liquidate" }
+      let res : Res Unit := match action with
+        | "create" => cdpCreate price flags cp i
+        | "deposit" => cdpDeposit flags cp i
+        | "withdraw" => cdpWithdraw price flags cp i
+        | "draw" => cdpDraw price cp i
+        | "liquidate" => cdpLiquidate price cp i
+        | "blockliq" => if beginSeizes price cp (control == "skip") then .ok () else .err
+        | _ => .panic
+      match res with
+      | .panic => badInput "action"
+      | .err => if cls == "ok" then mismatch "gate" "err" cls else "ok"
+      | .ok _ => if kind == "price" then mismatch "gate" "price-available" "price-error" else "ok"
+    | _, _, _, _, _ => badInput "parse"
+  | _ => badInput "arity"
+
+/-! ### c18.gate.hard : action req dep bor avail control => class errkind
+    req/dep/bor: denom indices (for withdraw `dep` is the deposit that would remain); avail: per denom 0|1 -/
+def hGateHard : Handler
+  | [action, req, dep, bor, avail, _control, _, cls, kind] =>
+    match nats? req, nats? dep, nats? bor, nats? avail with
+    | some req, some dep, some bor, some avail =>
+      let price : Nat → Option Int := fun m => if avail.getD m 0 == 1 then some 1 else none
+      let mm : Nat → Option Nat := fun d => if d < avail.length then some d else none
+      let valued := match action with
+        | "borrow" => req ++ dep ++ bor
+        | _ => dep ++ bor
+      let allThere := valued.all (fun d => avail.getD d 0 == 1)
+      if !allThere && cls == "ok" then predfail "C18_consumers_refuse" s!"hard-{action}-proceeded-without-price"
+      else
+        let res := match action with
+          | "borrow" => hardBorrow price mm req dep bor {}
+          | "withdraw" => hardWithdraw price mm dep bor {}
+          | "liquidate" => hardLiquidate price mm dep bor {}
+          | _ => .panic
+        match res with
+        | .panic => badInput "action"
+        | .err => if cls == "ok" then mismatch "gate" "err" cls else "ok"
+        | .ok _ => if kind == "price" then mismatch "gate" "price-available" "price-error" else "ok"
+    | _, _, _, _ => badInput "parse"
+  | _ => badInput "arity"
+
+def handlers : List (String × Handler) := [
+  ("c18.median", hMedian),
+  ("c18.post", hPost),
+  ("c18.endblock", hEndBlock),
+  ("c18.flags", hFlags),
+  ("c18.gate.cdp", hGateCdp),
+  ("c18.gate.hard", hGateHard)
+]
 end Drv.C18
